@@ -78,6 +78,32 @@ def ctor_status(dotted):
     return "ok", ""
 
 
+def complex_test_kind(cond):
+    """'ok' if the condition is true exactly for complex64/complex128 (or all complex dtypes), 'wrong' for known-bad idioms"""
+    txt = nf(cond, 400)
+    a = cond.single_atom() if isinstance(cond, Rat) else None
+    if isinstance(a, Fn) and a.name == "boolop_Or":
+        parts = [x.single_atom() for x in a.args if isinstance(x, Rat)]
+        names = sorted(str(p.args[2]) for p in parts if isinstance(p, Fn) and p.name == "cmp" and p.args[0] == "==")
+        names2 = sorted(str(p.args[1]) for p in parts if isinstance(p, Fn) and p.name == "cmp" and p.args[0] == "==")
+        flat = " ".join(names + names2)
+        if "complex64" in flat and "complex128" in flat:
+            return "ok"
+        return "wrong"
+    if isinstance(a, Fn) and a.name == "iscomplexobj":
+        return "ok"
+    if isinstance(a, Fn) and a.name == "isrealobj":
+        return "real-test"
+    if isinstance(a, Fn) and a.name == "issubdtype":
+        second = str(a.args[1])
+        if "complexfloating" in second:
+            return "ok"
+        return "wrong"          # issubdtype(dtype, complex) / numpy.complex128 / numpy.complex64: one precision only
+    if isinstance(a, Fn) and a.name == "cmp":
+        return "wrong"          # dtype == <one complex type>
+    return "?"
+
+
 def canon_lead(v, rank=None):
     """leading full slices written explicitly (2-D branch) == Ellipsis (N-D branch); on a path of
     known rank an index tuple naming every axis is the same as one with a leading Ellipsis"""
@@ -166,10 +192,27 @@ def run(rep, tier, root=None):
         order = Rat.const(3)
         rets = I3.returns(g, [arr, (Rat.sym("nx", ("int",)), Rat.sym("ny", ("int",))), Rat.sym("order", ("int",))])
         real_paths, cplx_paths = [], []
-        for conds, v in rets:
+        full = I3.paths(g, [arr, (Rat.sym("nx", ("int",)), Rat.sym("ny", ("int",))), Rat.sym("order", ("int",))])
+        verdicts = set()
+        for conds, cnf, v in full:
             if any(c.startswith("except") for c in conds):
                 continue
-            (real_paths if any(c.startswith("not (array.dtype") for c in conds) else cplx_paths).append(v)
+            dt = [(val, t) for val, t in cnf if isinstance(val, Rat) and any(isinstance(a, Fn) and a.name in ("dtype", "iscomplexobj", "issubdtype", "isrealobj")
+                                                                              for a in val.atoms())]
+            if len(dt) != 1:
+                continue
+            kind = complex_test_kind(dt[0][0])
+            verdicts.add(kind)
+            is_complex_branch = dt[0][1] if kind != "real-test" else not dt[0][1]
+            (cplx_paths if is_complex_branch else real_paths).append(v)
+        if "wrong" in verdicts:
+            rep.violation("B3.complex-detection", g.fq + ": the complex branch is taken for every complex dtype",
+                          "the test that selects the complex branch does not hold for all complex dtypes (e.g. numpy.issubdtype(complex64, "
+                          "complex) is False): complex64 data falls into the real branch and loses its imaginary part", g.where())
+        elif verdicts <= {"ok", "real-test"} and verdicts:
+            rep.ok("B3.complex-detection", g.fq + ": complex64 and complex128 both take the complex branch")
+        else:
+            rep.unknown("B3.complex-detection", g.fq, "unrecognised complex-dtype test", g.where())
         if len(real_paths) != 1 or len(cplx_paths) != 1:
             rep.unknown("B3.zoom-form", g.fq, "expected one real and one complex path (%d/%d)" % (len(real_paths), len(cplx_paths)), g.where())
             continue
